@@ -204,6 +204,20 @@ type xctx struct {
 	sh   *tsdrv.Shard
 	lww  *tsdrv.LWW
 	nser int
+	agg  []XAgg // the aggregate results observed (replayed on the Coq model of the file-cursor walk by the driver)
+}
+
+// XAgg: the combined result of one call of an aggregate read for one series, as the real store returned it
+type XAgg struct {
+	Desc  bool   `json:"desc,omitempty"`
+	S     int    `json:"s"`
+	Tmin  int    `json:"tmin"`
+	Tmax  int    `json:"tmax"`
+	Field int    `json:"f"`
+	Fn    string `json:"fn"`
+	Has   bool   `json:"has"` // a result exists (count: always, 0 when nothing came back)
+	V     int64  `json:"v"`
+	T     int    `json:"t"` // first / last: time index of the selected point
 }
 
 func (c *xctx) expect(s int, fs []int, a, b int, desc bool) []tsdrv.OutRow {
@@ -292,7 +306,10 @@ func (c *xctx) runRead(x XRead) (fails []XFail) {
 		for ci := range x.Calls {
 			cl := x.Calls[ci]
 			// combine the partial results per series (what the executor's upper aggregation stage does)
-			type acc struct{ v int64 }
+			type acc struct {
+				v int64
+				t int
+			}
 			part := map[int]*acc{}
 			for _, ar := range rows {
 				if len(ar.Cells) != len(x.Calls) {
@@ -318,12 +335,21 @@ func (c *xctx) runRead(x XRead) (fails []XFail) {
 				} else {
 					v = cellCode(cl.Field, cell)
 				}
+				ct := tsdrv.IdxOf(cell.Time)
 				p := part[sr]
 				if p == nil {
-					part[sr] = &acc{v: v}
+					part[sr] = &acc{v: v, t: ct}
 					continue
 				}
 				switch cl.Fn {
+				case "first":
+					if ct < p.t {
+						p.v, p.t = v, ct
+					}
+				case "last":
+					if ct > p.t {
+						p.v, p.t = v, ct
+					}
 				case "count", "sum":
 					p.v += v
 				case "min":
@@ -339,10 +365,17 @@ func (c *xctx) runRead(x XRead) (fails []XFail) {
 			for s := 0; s < c.nser; s++ {
 				want := c.expect(s, []int{cl.Field}, a, b, false)
 				var wv int64
+				wt := 0
 				whas := len(want) > 0
 				for i, w := range want {
 					v := w.F[0].V
 					switch cl.Fn {
+					case "first":
+						if i == 0 {
+							wv, wt = v, w.T
+						}
+					case "last":
+						wv, wt = v, w.T
 					case "count":
 						wv++
 					case "sum":
@@ -360,14 +393,20 @@ func (c *xctx) runRead(x XRead) (fails []XFail) {
 				p := part[s]
 				ghas := p != nil
 				var gv int64
+				gt := 0
 				if ghas {
 					gv = p.v
+					if cl.Fn == "first" || cl.Fn == "last" {
+						gt = p.t
+					}
 				}
 				var ok bool
 				if cl.Fn == "count" { // count of nothing: 0 or no result
 					ok = wv == gv
+					c.agg = append(c.agg, XAgg{Desc: x.Desc, S: s, Tmin: a, Tmax: b, Field: cl.Field, Fn: cl.Fn, Has: true, V: gv})
 				} else {
-					ok = whas == ghas && (!whas || wv == gv)
+					ok = whas == ghas && (!whas || (wv == gv && wt == gt))
+					c.agg = append(c.agg, XAgg{Desc: x.Desc, S: s, Tmin: a, Tmax: b, Field: cl.Field, Fn: cl.Fn, Has: ghas, V: gv, T: gt})
 				}
 				if !ok {
 					w, g, cc := wv, gv, cl
@@ -389,8 +428,9 @@ func (c *xctx) runRead(x XRead) (fails []XFail) {
 }
 
 // extraReads generates and runs one read of every enabled kind and returns the oracle failures.
-func extraReads(opIdx int, sh *tsdrv.Shard, lww *tsdrv.LWW, r *gen.Rand, nser int, files []tsdrv.File, kinds map[string]int) (fails []XFail, n int) {
+func extraReads(opIdx int, sh *tsdrv.Shard, lww *tsdrv.LWW, r *gen.Rand, nser int, files []tsdrv.File, kinds map[string]int) (fails []XFail, n int, aggs []XAgg) {
 	c := &xctx{op: opIdx, sh: sh, lww: lww, nser: nser}
+	defer func() { aggs = c.agg }()
 	only := envKinds()
 	if only["zone"] {
 		a, b := pickRangeX(r, files)
@@ -421,8 +461,8 @@ func extraReads(opIdx int, sh *tsdrv.Shard, lww *tsdrv.LWW, r *gen.Rand, nser in
 		ncall := r.Range(1, 3)
 		used := map[string]bool{}
 		for len(x.Calls) < ncall {
-			cl := XCall{Fn: gen.Pick(r, []string{"count", "count", "sum", "min", "max"}), Field: r.Intn(4)}
-			if cl.Fn != "count" {
+			cl := XCall{Fn: gen.Pick(r, []string{"count", "count", "sum", "min", "max", "first", "last"}), Field: r.Intn(4)}
+			if cl.Fn == "sum" || cl.Fn == "min" || cl.Fn == "max" {
 				cl.Field = r.Intn(2) // numeric fields
 			}
 			k := cl.Fn + strconv.Itoa(cl.Field)
